@@ -320,12 +320,59 @@ class Inliner:
             for name, v in m.globals.items():
                 self._const("%s.%s" % (m.stem, name), name, v)
 
+    READONLY_CALLS = {"len", "set", "frozenset", "sorted", "tuple", "list", "dict", "enumerate", "zip", "sum", "any", "all",
+                      "max", "min", "reversed", "iter", "isinstance"}
+    READONLY_METHODS = {"get", "keys", "items", "values", "index", "count", "copy"}
+
+    def _readonly_everywhere(self, name, v):
+        """A constant whose literal is a MUTABLE display (list/dict/set) is one shared object; replacing a reference by
+        the display gives every use a fresh object. That is the same program only if no use can edit or leak the object:
+        every reference in the package must be a membership test, an iteration, an argument of a pure builtin, a
+        read-only method call or (when all elements are immutable) a subscript load."""
+        flat = all(isinstance(x, ast.Constant) for x in (
+            (v.values if isinstance(v, ast.Dict) else getattr(v, "elts", []))))
+        for m in self.repo.modules.values():
+            if m.rel.startswith("osaca/data/"):
+                continue
+            par = {}
+            for n in ast.walk(m.tree):
+                for c in ast.iter_child_nodes(n):
+                    par[id(c)] = n
+            for n in ast.walk(m.tree):
+                ref = (isinstance(n, ast.Name) and n.id == name) or (isinstance(n, ast.Attribute) and n.attr == name)
+                if not ref:
+                    continue
+                if isinstance(n.ctx, ast.Store):
+                    if isinstance(par.get(id(n)), (ast.Assign, ast.AnnAssign)) and isinstance(par.get(id(par[id(n)])), (ast.Module, ast.ClassDef)):
+                        continue        # the definition itself
+                    return False
+                p = par.get(id(n))
+                if isinstance(p, ast.Compare) and any(n is c for c in p.comparators) and all(
+                        isinstance(o, (ast.In, ast.NotIn)) for o in p.ops):
+                    continue
+                if isinstance(p, (ast.For, ast.comprehension)) and p.iter is n:
+                    continue
+                if isinstance(p, ast.Call) and isinstance(p.func, ast.Name) and p.func.id in self.READONLY_CALLS and any(n is a for a in p.args):
+                    continue
+                if isinstance(p, ast.Attribute) and p.value is n and p.attr in self.READONLY_METHODS and isinstance(par.get(id(p)), ast.Call) \
+                        and (flat or p.attr in ("keys", "index", "count")):
+                    continue
+                if isinstance(p, ast.Subscript) and p.value is n and isinstance(p.ctx, ast.Load) and flat:
+                    continue
+                if isinstance(p, (ast.alias,)):
+                    continue
+                return False
+        return True
+
     def _const(self, q, name, v):
         if q in self.known_consts or not name.upper() == name or not name.strip("_"):
             return
         try:
             ast.literal_eval(v)
         except Exception:
+            return
+        if any(isinstance(x, (ast.List, ast.Dict, ast.Set)) for x in ast.walk(v)) and not self._readonly_everywhere(name, v):
+            self.rejected["const " + q] = "mutable constant with a use that may edit or leak it"
             return
         self.consts[q] = v
 
